@@ -115,6 +115,9 @@ func (m *gModel) inst(t *gTask, P, V string, hasV bool) *gInst {
 		m.over = true
 		return nil
 	}
+	if !hasV && m.p.IncDefaultV && run != "once" {
+		V = "incv" // nobody passed V: the included Taskfile's top-level default is what every task sees
+	}
 	in := &gInst{T: t, P: k, V: V, Shared: run != "always", sSeq: map[string]int{}, eSeq: map[string]int{}, firstOwn: inf}
 	m.byP[k] = in
 	m.order = append(m.order, in)
@@ -225,6 +228,9 @@ func (m *gModel) refInst(from *gInst, r gRef, it refItem, edge string) *gInst {
 		V, hasV = r.VLit, true
 	case vInherit:
 		V, hasV = from.V, true
+		if len(V) == 2 && from.T.VUse == "env" {
+			V = V[:1] // the two-letter value stands for (V,W); '{{.V}}' is its first component
+		}
 	case vItem:
 		V, hasV = it.item, true
 	}
@@ -623,6 +629,10 @@ func (c *gChecker) entryEnabled(in *gInst, e *gEnt, t int, why string) bool {
 	for _, d := range in.Deps {
 		if m.okAt(d) >= t {
 			c.add("C01", depSig(m, d), "%s: entry %s of %s at %d but dependency %s had not finished successfully (okAt=%s)", why, e.Lab, in.P, t, d.P, seqStr(m.okAt(d)))
+			if cu := c.culprit(d); d.Shared || cu.Shared {
+				// "every referencing task waits for the one real execution and observes its outcome"
+				c.add("C06", "shared_dep_not_awaited|"+sharedTag(m, cu), "%s: entry %s of %s at %d although the shared execution %s it depends on had not finished successfully", why, e.Lab, in.P, t, cu.P)
+			}
 			ok = false
 		}
 	}
